@@ -904,6 +904,15 @@ func (c *Ctx) evalCall(e *Expr, env *Env) *Val {
 			return c.iteVal(lt.S, a, b)
 		}
 		return c.iteVal(lt.S, b, a)
+	case "resultOf":
+		// resultOf(x, "callee pattern"): the value x is (on this path) the result of a call
+		// to a matching callee - provenance, decided by data flow, not by value equality
+		x := arg(0)
+		if x == nil || len(e.Args) < 2 || e.Args[1].Op != "str" {
+			c.specErr("resultOf(value, \"callee pattern\")")
+			return nil
+		}
+		return &Val{K: VScalar, T: boolT, S: c.provMatches(x, e.Args[1].Name)}
 	case "has":
 		// has(m, k): key k is present in map m
 		m, k := arg(0), arg(1)
